@@ -14,10 +14,12 @@ from .core import Ctx, EVIDENCE_DIR, Finding, load_known, write_evidence
 from .index import AnalysisError, Program, SRC_ROOT
 
 
-def run_property(prop: str, tier: str, overlay: Optional[Dict[str, str]] = None, holder: Optional[list] = None) -> Ctx:
+def run_property(prop: str, tier: str, overlay: Optional[Dict[str, str]] = None, holder: Optional[list] = None,
+                 stop_when=None) -> Ctx:
     mod = importlib.import_module(f"sa.props.{prop}")
     prog = Program(SRC_ROOT, overlay)
     ctx = Ctx(prop, tier, prog)
+    ctx.stop_when = stop_when
     if holder is not None:
         holder.append(ctx)
     # cross-cutting rule on the property's anchor files: options are handed on to callees (sa/siblings.py::option_forward)
@@ -61,8 +63,12 @@ def _mutant_worker(args) -> Tuple[str, bool, List[str], str]:
     prop, name, overlay, expect, baseline_keys = args
     try:
         holder: list = []
+        from .core import EarlyStop
+        stop = (lambda f: f.key not in baseline_keys and (expect in f.key if expect else True))
         try:
-            ctx = run_property(prop, "quick", overlay, holder)
+            ctx = run_property(prop, "quick", overlay, holder, stop_when=stop)
+        except EarlyStop:
+            ctx = holder[0]
         except AnalysisError:
             if holder and holder[0].findings:
                 ctx = holder[0]
@@ -78,6 +84,19 @@ def _mutant_worker(args) -> Tuple[str, bool, List[str], str]:
         return name, False, [], f"crash: {type(e).__name__}: {e}"
 
 
+def _mutant_child(job, conn) -> None:
+    try:
+        conn.send(_mutant_worker(job))
+    except BaseException as e:  # pragma: no cover
+        try:
+            conn.send((job[1], False, [], f"crash: {type(e).__name__}: {e}"))
+        except Exception:
+            pass
+    finally:
+        conn.close()
+        os._exit(0)
+
+
 def selftest(prop: str, ctx: Ctx) -> Dict[str, Any]:
     """Thorough tier: AST-computed single edits of today's source must each be reported by this property's rules."""
     mod = importlib.import_module(f"sa.props.{prop}")
@@ -89,10 +108,40 @@ def selftest(prop: str, ctx: Ctx) -> Dict[str, Any]:
     jobs = [(prop, name, overlay, expect, baseline) for (name, overlay, expect) in muts]
     results = []
     if jobs:
+        # one forked process per mutant, at most 16 at a time, each with a wall-clock budget: a mutant that makes the analysis
+        # diverge (e.g. a broken identity blowing up the normal forms) or crash is recorded as "not killed", never hangs the run
         import multiprocessing as mp
-        n = min(16, len(jobs))
-        with mp.get_context("fork").Pool(n) as pool:
-            results = pool.map(_mutant_worker, jobs, chunksize=1)
+        mpc = mp.get_context("fork")
+        budget = float(os.environ.get("VERIF_MUTANT_TIMEOUT", "600"))
+        pending = list(enumerate(jobs))
+        running: Dict[int, Any] = {}
+        out: Dict[int, Any] = {}
+        while pending or running:
+            while pending and len(running) < 16:
+                i, job = pending.pop(0)
+                rd, wr = mpc.Pipe(duplex=False)
+                pr = mpc.Process(target=_mutant_child, args=(job, wr))
+                pr.start()
+                wr.close()
+                running[i] = (pr, rd, time.time(), job[1])
+            for i in list(running):
+                pr, rd, t0, name = running[i]
+                if rd.poll(0.05):
+                    try:
+                        out[i] = rd.recv()
+                    except EOFError:
+                        out[i] = (name, False, [], "worker died")
+                    pr.join(5)
+                    del running[i]
+                elif not pr.is_alive():
+                    out[i] = (name, False, [], f"worker exited with code {pr.exitcode}")
+                    del running[i]
+                elif time.time() - t0 > budget:
+                    pr.kill()
+                    pr.join(5)
+                    out[i] = (name, False, [], f"analysis of the mutant exceeded {int(budget)} s")
+                    del running[i]
+        results = [out[i] for i in sorted(out)]
     killed = [r for r in results if r[1]]
     survived = [r for r in results if not r[1]]
     return {
